@@ -689,8 +689,34 @@ func (m *GRPCBroker) Run() {
 		select {
 		case p.ch <- msg:
 		default:
+			// Connection info for this ID is already waiting and was never
+			// picked up. It is out of date by now - the listener it names
+			// may be gone, the ID having been accepted again - so the newer
+			// info takes its place, with a pending window of its own.
+			if msg.Knock == nil {
+				p = m.replaceClientStream(msg.ServiceId, p)
+				go m.timeoutWait(msg.ServiceId, p)
+				select {
+				case p.ch <- msg:
+				default:
+				}
+			}
 		}
 	}
+}
+
+// replaceClientStream retires the pending entry p of id and returns a fresh
+// one.
+func (m *GRPCBroker) replaceClientStream(id uint32, p *gRPCBrokerPending) *gRPCBrokerPending {
+	m.Lock()
+	if m.clientStreams[id] == p {
+		delete(m.clientStreams, id)
+	}
+	m.Unlock()
+	p.once.Do(func() {
+		close(p.doneCh)
+	})
+	return m.getClientStream(id)
 }
 
 // getClientStream is a buffer to receive new connection info and knock acks
